@@ -36,6 +36,7 @@ def alphabet(dt, rich):
     # an action together with a market event in the same update
     A.append(L.tick(dt, "SUS", [["C", 0, None]]))
     A.append(L.tick(dt, "T21", [["C", 0, 2.0]]))
+    A.append(L.tick(dt, "RM1", [L.P("PBn")]))  # the runner is withdrawn while the placement is in flight (slow configs)
     # batched placements with an explicit execute() in the middle: nothing may reach the matching engine twice
     A.append(L.tick(dt, "Q", [["TX", [L.P("XB"), L.P("PBn")], [1]]]))
     return A
